@@ -137,6 +137,19 @@ def check(prog, rep):
                     is_obj = bound is None or not (isinstance(bound, ast.Attribute) and bound.attr in ("value", "_value"))
                     rep.ob("R12.1", construct, is_obj, "read inside the closure body at call time; the closure holds the object" if is_obj else "the closure is bound to a number read when it was built", loc=loc, detail="call-time")
                     continue
+            if fi.parent is not None and isinstance(fi.node, ast.FunctionDef) and lam is fi.node:
+                # a nested def that its factory hands out (returns / stores) without calling it: its body runs at call
+                # time, and a receiver captured from the factory's scope is the object itself
+                par_ = fi.parent
+                handed = any(isinstance(r, ast.Return) and isinstance(r.value, ast.Name) and r.value.id == fi.node.name for r in walk_local(par_.node, include_self=False))
+                called = any(isinstance(c_, ast.Call) and isinstance(c_.func, ast.Name) and c_.func.id == fi.node.name for c_ in walk_local(par_.node, include_self=False))
+                own = {a.arg for a in fi.node.args.args} | set(assigns)
+                root = recv.split(".")[0].split("[")[0]
+                if handed and not called and root not in own:
+                    pasg = local_assignments(par_.node)
+                    frozen = any(isinstance(v, ast.Attribute) and v.attr in ("value", "_value") for v in pasg.get(root, []) if isinstance(v, ast.AST))
+                    rep.ob("R12.1", construct, not frozen, "read inside the returned closure at call time; the closure captured the object" if not frozen else f"the closure captured `{root}`, a number read when it was built", loc=loc, detail="call-time", robust=True)
+                    continue
             if implied_constant(n, recv, assigns):
                 rep.ob("R12.1", construct, True, f"dominated by isinstance({recv}, Constant): cannot be a Parameter", loc=loc, detail="constant-guarded")
                 continue
